@@ -127,10 +127,17 @@ def load(R):
                ensures=UD_POST, modifies=UD_MOD)
 
     # ---------------------------------------------------------------- did_change of the four rule kinds
+    R.uf("resolves", [TObj()], TBool)
+
     def opaque_call(ex, fv, args, kwargs):
-        """A resolver: returns what the symbol currently resolves to (a function of the resolver within one call)."""
+        """A resolver: returns what the symbol currently resolves to (a function of the resolver within one call) -- or raises, when the symbol (an
+        attribute along a dotted name, a module global) has been removed since the rule was collected: `resolves(resolver)` says which."""
+        if not ex.branch(R.ufs["resolves"][0](fv.t)):
+            raise PyRaise(VExc("AttributeError", []))
         return VObj(ufs["call_result"](fv.t))
     R.opaque_call_hook = opaque_call
+    # from the property: a symbol that no longer resolves gives another from-scratch version (an undefined-symbol rule instead of this one), so the rule
+    # reports a change -- it does not raise out of version()
     C = "code_hash:"
     R.entity("UndefinedSymbolHashRule", ("code_hash", "UndefinedSymbolHashRule"), dict(ref=TObj(), symbol=TStr, ref_is_global_table=TBool))
     R.contract(C + "UndefinedSymbolHashRule.did_change", prop="C13", types={"self": TEnt("UndefinedSymbolHashRule")}, returns=TBool,
@@ -140,14 +147,14 @@ def load(R):
     R.contract(C + "MementoFunctionHashRule.did_change", prop="C13", types={"self": TEnt("MementoFunctionHashRule")}, returns=TBool,
                # from the property: a rule reports a change whenever what its symbol resolves to would give another rule hash from scratch -- for a memento
                # function: the symbol no longer resolves to a memento function, OR it resolves to another one (rebinding dep = g2)
-               ensures=["result == (not isinstance(call_result(self.resolver), MementoFunctionType) or not same(call_result(self.resolver), self.memento_fn))"])
+               ensures=["result == (not resolves(self.resolver) or not isinstance(call_result(self.resolver), MementoFunctionType) or not same(call_result(self.resolver), self.memento_fn))"])
     R.entity("GlobalVariableHashRule", ("code_hash", "GlobalVariableHashRule"), dict(var=TObj(), resolver=TObj("nn:callable"), last_value=TObj()))
     R.contract(C + "GlobalVariableHashRule._serialize_value", assumed=True, types={"var": TObj()}, returns=TObj(), ensures=["same(result, serialize(var))"])
     R.contract(C + "GlobalVariableHashRule.did_change", prop="C13", types={"self": TEnt("GlobalVariableHashRule")}, returns=TBool,
-               ensures=["result == (self.last_value is not None and not py_eq(self.last_value, serialize(call_result(self.resolver))))"])
+               ensures=["result == (self.last_value is not None and (not resolves(self.resolver) or not py_eq(self.last_value, serialize(call_result(self.resolver)))))"])
     R.entity("NonMementoFunctionHashRule", ("code_hash", "NonMementoFunctionHashRule"), dict(resolver=TObj("nn:callable"), src_fn=TObj()))
     R.contract(C + "NonMementoFunctionHashRule.did_change", prop="C13", types={"self": TEnt("NonMementoFunctionHashRule")}, returns=TBool,
-               ensures=["result == (not py_eq(self.src_fn, call_result(self.resolver)))"])
+               ensures=["result == (not resolves(self.resolver) or not py_eq(self.src_fn, call_result(self.resolver)))"])
 
     # ---------------------------------------------------------------- registration step of MementoFunction.__init__
     R.attr("__module__", TStr)
